@@ -82,7 +82,7 @@ func c22RealLostNames(c *Ctx) c22LostNames {
 				},
 			},
 		},
-		floors: [3]int{0, 6, 0},
+		floors: [3]int{230, 6, 90},
 	}
 }
 
